@@ -5,6 +5,25 @@ package zygo
 // Contracts for the zvc verifier (kept in /verif/engine). Comment-only file:
 // with the build tag off it does not exist for the compiler; with the tag on
 // it contributes no declarations.
+//
+// Grammar: see /verif/engine/contracts.go.  Clauses are tagged with the
+// property (C01..C20) whose check generates obligations from them; requires
+// clauses always apply.
+
+// debug printers (T-LOG): assumed pure
+//@ func P
+//@ pure
+//@ trusted
+//@ func Q
+//@ pure
+//@ trusted
+//@ func VPrintf
+//@ pure
+//@ trusted
+
+// ===========================================================================
+// C07  numbers compare and compute exactly
+// ===========================================================================
 
 //@ spec sgnS(a int64, b int64) int = ite(a < b, -1, ite(a > b, 1, 0))
 //@ spec sgnU(a uint64, b uint64) int = ite(a < b, -1, ite(a > b, 1, 0))
@@ -18,20 +37,64 @@ package zygo
 //@ C07 ensures r0 == ite(f > 0, 1, ite(f < 0, -1, 0))
 //@ pure
 
-//@ func signumUint64
-//@ C07 ensures r0 == ite(i > 0, 1, 0)
+//@ func cmpInt64
+//@ C07 ensures r0 == sgnS(a, b)
+//@ pure
+
+//@ func cmpUint64
+//@ C07 ensures r0 == sgnU(a, b)
 //@ pure
 
 //@ func compareInt
+//@ C07 pure
 //@ C07 ensures int-int: typeis(expr, *SexpInt) ==> r1 == nil && r0 == sgnS(i.Val, expr.(*SexpInt).Val)
 //@ C07 ensures int-float: typeis(expr, *SexpFloat) && !isNaN(expr.(*SexpFloat).Val) ==> r1 == nil && r0 == sgnF(float64(i.Val), expr.(*SexpFloat).Val)
 //@ C07 ensures int-nan: typeis(expr, *SexpFloat) && isNaN(expr.(*SexpFloat).Val) ==> r1 == nil && r0 > 1
+//@ C07 ensures int-char: typeis(expr, *SexpChar) ==> r1 == nil && r0 == sgnS(i.Val, int64(expr.(*SexpChar).Val))
 
 //@ func compareUint64
+//@ C07 pure
 //@ C07 ensures u-u: typeis(expr, *SexpUint64) ==> r1 == nil && r0 == sgnU(i.Val, expr.(*SexpUint64).Val)
 
+//@ func compareChar
+//@ C07 pure
+//@ C07 ensures c-c: typeis(expr, *SexpChar) ==> r1 == nil && r0 == sgnS(int64(c.Val), int64(expr.(*SexpChar).Val))
+//@ C07 ensures c-float: typeis(expr, *SexpFloat) && !isNaN(expr.(*SexpFloat).Val) ==> r1 == nil && r0 == sgnF(float64(c.Val), expr.(*SexpFloat).Val)
+//@ C07 ensures c-nan: typeis(expr, *SexpFloat) && isNaN(expr.(*SexpFloat).Val) ==> r1 == nil && r0 > 1
+//@ C07 ensures c-int: typeis(expr, *SexpInt) ==> r1 == nil && r0 == sgnS(int64(c.Val), expr.(*SexpInt).Val)
+
 //@ func compareFloat
+//@ C07 pure
 //@ C07 ensures f-f: typeis(expr, *SexpFloat) && !isNaN(f.Val) && !isNaN(expr.(*SexpFloat).Val) ==> r1 == nil && r0 == sgnF(f.Val, expr.(*SexpFloat).Val)
 //@ C07 ensures f-f-nan: typeis(expr, *SexpFloat) && (isNaN(f.Val) || isNaN(expr.(*SexpFloat).Val)) ==> r1 == nil && r0 > 1
 //@ C07 ensures f-int: typeis(expr, *SexpInt) && !isNaN(f.Val) ==> r1 == nil && r0 == sgnF(f.Val, float64(expr.(*SexpInt).Val))
 //@ C07 ensures f-int-nan: typeis(expr, *SexpInt) && isNaN(f.Val) ==> r1 == nil && r0 > 1
+//@ C07 ensures f-char: typeis(expr, *SexpChar) && !isNaN(f.Val) ==> r1 == nil && r0 == sgnF(f.Val, float64(expr.(*SexpChar).Val))
+//@ C07 ensures f-char-nan: typeis(expr, *SexpChar) && isNaN(f.Val) ==> r1 == nil && r0 > 1
+
+// Three-way result of Compare for the numeric type pairs of the statement,
+// as a function of the two operands (NaN encoded as > 1).
+//@ macro cmpNum(a Sexp, b Sexp, r int) bool = (typeis(a, *SexpInt) && typeis(b, *SexpInt) ==> r == sgnS(a.(*SexpInt).Val, b.(*SexpInt).Val))
+//@ |  && (typeis(a, *SexpUint64) && typeis(b, *SexpUint64) ==> r == sgnU(a.(*SexpUint64).Val, b.(*SexpUint64).Val))
+//@ |  && (typeis(a, *SexpChar) && typeis(b, *SexpChar) ==> r == sgnS(int64(a.(*SexpChar).Val), int64(b.(*SexpChar).Val)))
+//@ |  && (typeis(a, *SexpFloat) && typeis(b, *SexpFloat) ==> ite(isNaN(a.(*SexpFloat).Val) || isNaN(b.(*SexpFloat).Val), r > 1, r == sgnF(a.(*SexpFloat).Val, b.(*SexpFloat).Val)))
+//@ |  && (typeis(a, *SexpInt) && typeis(b, *SexpFloat) ==> ite(isNaN(b.(*SexpFloat).Val), r > 1, r == sgnF(float64(a.(*SexpInt).Val), b.(*SexpFloat).Val)))
+//@ |  && (typeis(a, *SexpFloat) && typeis(b, *SexpInt) ==> ite(isNaN(a.(*SexpFloat).Val), r > 1, r == sgnF(a.(*SexpFloat).Val, float64(b.(*SexpInt).Val))))
+//@ |  && (typeis(a, *SexpChar) && typeis(b, *SexpFloat) ==> ite(isNaN(b.(*SexpFloat).Val), r > 1, r == sgnF(float64(a.(*SexpChar).Val), b.(*SexpFloat).Val)))
+//@ |  && (typeis(a, *SexpFloat) && typeis(b, *SexpChar) ==> ite(isNaN(a.(*SexpFloat).Val), r > 1, r == sgnF(a.(*SexpFloat).Val, float64(b.(*SexpChar).Val))))
+//@ macro numTag(a Sexp) bool = typeis(a, *SexpInt) || typeis(a, *SexpUint64) || typeis(a, *SexpChar) || typeis(a, *SexpFloat)
+//@ macro numPair(a Sexp, b Sexp) bool = (typeis(a, *SexpUint64) && typeis(b, *SexpUint64)) || ((typeis(a, *SexpInt) || typeis(a, *SexpChar) || typeis(a, *SexpFloat)) && (typeis(b, *SexpInt) || typeis(b, *SexpChar) || typeis(b, *SexpFloat)) && !(typeis(a, *SexpInt) && typeis(b, *SexpChar)) && !(typeis(a, *SexpChar) && typeis(b, *SexpInt)))
+
+//@ func (*Zlisp).Compare
+//@ C07 ensures dispatch: old(numPair(a, b)) ==> r1 == nil && old(cmpNum(a, b, r0))
+
+//@ macro boolRes(r Sexp, v bool) bool = typeis(r, *SexpBool) && r.(*SexpBool).Val == v
+
+//@ func CompareFunction$1
+//@ C07 ensures ops: len(args) == 2 && old(numPair(args[0], args[1])) ==> r1 == nil && forall(c, int, old(cmpNum(args[0], args[1], c)) ==>
+//@ |     (*name == "<"  ==> boolRes(r0, c < 0))
+//@ |  && (*name == ">"  ==> boolRes(r0, c == 1))
+//@ |  && (*name == "<=" ==> boolRes(r0, c <= 0))
+//@ |  && (*name == ">=" ==> boolRes(r0, c == 0 || c == 1))
+//@ |  && (*name == "==" ==> boolRes(r0, c == 0))
+//@ |  && (*name == "!=" ==> boolRes(r0, c != 0)))
